@@ -1,7 +1,8 @@
 #!/bin/bash
 # developer helper: regenerate _CoqProject and build everything, printing only errors
 cd /verif && PYTHONPATH=/repo/src:/verif /venv/bin/python -c "
-from tools import lib
+from tools import lib, translate
+print(translate.regenerate_all())
 ok,log=lib.make()
 import re
 print('\n'.join(l for l in log.splitlines() if not l.startswith('COQC') and not l.startswith('COQDEP'))[-4000:])
